@@ -21,7 +21,9 @@ verus! {
 pub assume_specification [<Error as From<IoError>>::from] (x: IoError) -> (r: Error);
 pub proof fn axiom_fmt_req() ensures vstd::std_specs::fmt::fmt_req_all::<SerdeError>(), vstd::std_specs::fmt::fmt_req_all::<ParseIdError>() { admit(); }
 
-#[verifier::external_body] pub struct Integrity { _p: () }     // ssri::Integrity: an opaque content hash
+// ssri::Integrity: a list of hashes, each with a base64 digest (only validate_integrity looks inside)
+pub struct Hash { pub digest: String }
+pub struct Integrity { pub hashes: Vec<Hash> }
 #[verifier::external_body] pub struct JsonValue { _p: () }
 pub mod ssri { pub use super::Integrity; }
 
@@ -363,6 +365,90 @@ fn meta_header_str(parts: &Parts)
 //@@ epilogue
     ;
 }
+//@@ end
+
+// ================= ?context=<id> of POST /{topic} and GET /head/{topic} (C13) =================
+#[verifier::external_trait_specification]
+pub trait ExFromStr: Sized {
+    type ExternalTraitSpecificationFor: std::str::FromStr;
+    type Err;
+    fn from_str(s: &str) -> Result<Self, Self::Err>;
+}
+impl std::str::FromStr for Scru128Id {
+    type Err = ParseIdError;
+    #[verifier::external_body]
+    fn from_str(s: &str) -> (r: Result<Scru128Id, ParseIdError>) { unimplemented!() }
+}
+pub uninterp spec fn parse_spec<F>(b: Seq<char>) -> Option<F>;     // std / scru128 text parsing (ASSUMED a function of the text)
+pub assume_specification<F: std::str::FromStr> [str::parse::<F>] (s: &str) -> (r: Result<F, F::Err>)
+    ensures match r { Ok(v) => parse_spec::<F>(s@) == Some(v), Err(_) => parse_spec::<F>(s@) is None };
+#[verifier::external_body] pub struct ParamMap { _p: () }
+pub uninterp spec fn param(m: &ParamMap, k: Seq<char>) -> Option<Seq<char>>;
+impl ParamMap {
+    #[verifier::external_body]
+    pub fn get(&self, k: &str) -> (r: Option<&String>)
+        ensures match r { Some(v) => param(self, k@) == Some(v@), None => param(self, k@) is None }
+    { unimplemented!() }
+}
+pub open spec fn ctx_param_post(params: &ParamMap, r: Routes) -> bool {
+    match param(params, "context"@) {
+        // no context parameter: the zero context
+        None => r matches Routes::StreamItemGet(id) && id_u128(id) == 0,
+        // a context parameter is used only if it parses as an id; anything else is a client error (400), never a
+        // silent fallback to another context (C13: "changes the store only if it succeeded")
+        Some(c) => match parse_spec::<Scru128Id>(c) {
+            Some(id) => r == Routes::StreamItemGet(id),
+            None => r is BadRequest,
+        },
+    }
+}
+//@@ slice file=src/api.rs fn=match_route name=route_ctx_param_head
+//@@ from: let context_id
+//@@ from_nth: 0
+//@@ through_stmt:
+//@@ header
+fn route_ctx_param_head(params: &ParamMap) -> (r: Routes)
+    ensures ctx_param_post(params, r), //# api.route.head_context_param_parsed_or_400
+{
+    proof { axiom_fmt_req(); }
+//@@ epilogue
+    Routes::StreamItemGet(context_id)   // (carrier for the parsed id)
+}
+//@@ end
+//@@ slice file=src/api.rs fn=match_route name=route_ctx_param_append
+//@@ from: let context_id
+//@@ from_nth: 1
+//@@ through_stmt:
+//@@ header
+fn route_ctx_param_append(params: &ParamMap) -> (r: Routes)
+    ensures ctx_param_post(params, r), //# api.route.append_context_param_parsed_or_400
+{
+    proof { axiom_fmt_req(); }
+//@@ epilogue
+    Routes::StreamItemGet(context_id)   // (carrier for the parsed id)
+}
+//@@ end
+
+// ================= validate_integrity: only well-formed hashes reach the CAS layer (C13) =================
+#[derive(Debug)] pub struct DecodeError { _p: () }
+pub uninterp spec fn b64_valid(s: Seq<char>) -> bool;
+pub struct B64Engine { pub _p: () }
+impl B64Engine {
+    #[verifier::external_body]
+    pub fn decode(&self, s: &String) -> (r: Result<Vec<u8>, DecodeError>) ensures r is Ok <==> b64_valid(s@) { unimplemented!() }
+}
+pub mod base64 { pub mod engine { pub mod general_purpose {
+    #[allow(unused_imports)] use super::super::super::*;
+    pub const STANDARD: B64Engine = B64Engine { _p: () };
+} } }
+//@@ item file=src/api.rs fn=validate_integrity ret=r
+//@@ for_name: for hash in
+//@@ loop_spec: for hash in
+    invariant forall|j: int| 0 <= j < it.index@ ==> b64_valid(#[trigger] integrity.hashes@[j].digest@), //# api.validate_integrity.all_digests_decode
+//@@ spec
+    ensures
+        // accepted only if there is at least one hash and EVERY digest is valid base64 (ssri panics on others)
+        r ==> integrity.hashes@.len() > 0 && forall|j: int| 0 <= j < integrity.hashes@.len() ==> b64_valid(#[trigger] integrity.hashes@[j].digest@), //# api.validate_integrity.all_digests_decode
 //@@ end
 
 // ================= GET /cas/{hash}: the only block arm of handle's match (C13) =================
